@@ -38,6 +38,10 @@ type Universe struct {
 	loops     map[*ssa.Function][]*LoopInfo
 
 	asets         map[string]*AssignSet
+	onlyWrites    map[string][]string
+	objinvs       map[string]*ObjInv // by struct type name
+	objinvFields  map[string]string  // heap key -> struct type name
+	loadErrs      []string
 	gfacts        []*gfact
 	globalFacts   map[string]*globalFact
 	globalWritten map[string]string
@@ -74,6 +78,8 @@ func loadUniverse() (*Universe, error) {
 		ghosts:    map[string]*GhostField{},
 		bvTypes:   map[string]bool{},
 		asets:     map[string]*AssignSet{},
+		objinvs:   map[string]*ObjInv{},
+		objinvFields: map[string]string{},
 		typeIDs:   map[string]int{},
 		typeByID:  map[int]types.Type{},
 		funcIDs:   map[string]int{},
@@ -146,6 +152,7 @@ func loadUniverse() (*Universe, error) {
 		}
 	}
 	u.checkGlobalFacts()
+	u.checkObjInvWriters()
 	return u, nil
 }
 
@@ -172,8 +179,53 @@ func (u *Universe) addSpec(sf *SpecFile, path string) error {
 			u.assumes = append(u.assumes, "trusted (body not verified): "+c.FuncName)
 		}
 	}
+	for k, v := range sf.OnlyWrites {
+		if u.onlyWrites == nil {
+			u.onlyWrites = map[string][]string{}
+		}
+		u.onlyWrites[k] = v
+	}
 	for _, a := range sf.ASets {
 		u.asets[a.Name] = a
+	}
+	for _, oi := range sf.ObjInvs {
+		u.objinvs[oi.Type] = oi
+		t, err := u.parseType(oi.Type)
+		if err != nil {
+			return err
+		}
+		_, st := derefStruct(t)
+		if st == nil {
+			return fmt.Errorf("%s: objinv on non-struct %s", oi.P, oi.Type)
+		}
+		var walk func(e Expr)
+		walk = func(e Expr) {
+			switch x := e.(type) {
+			case *EField:
+				if id, ok := x.X.(*EIdent); ok && id.Name == oi.Param {
+					for i := 0; i < st.NumFields(); i++ {
+						if st.Field(i).Name() == x.Name {
+							u.objinvFields[u.fieldKey(t, st.Field(i))] = oi.Type
+						}
+					}
+				}
+				walk(x.X)
+			case *EBinary:
+				walk(x.X)
+				walk(x.Y)
+			case *EUnary:
+				walk(x.X)
+			case *ECall:
+				for _, a := range x.Args {
+					walk(a)
+				}
+			case *ECond:
+				walk(x.C)
+				walk(x.A)
+				walk(x.B)
+			}
+		}
+		walk(oi.E)
 	}
 	u.lemmas = append(u.lemmas, sf.Lemmas...)
 	for _, g := range sf.GFacts {
@@ -560,4 +612,87 @@ func rootAlloc(v ssa.Value) *ssa.Alloc {
 			return nil
 		}
 	}
+}
+
+
+// checkObjInvWriters: every function that writes a field mentioned by an object invariant
+// must be under contract (so that the invariant is an obligation at its return).
+func (u *Universe) checkObjInvWriters() {
+	// onlywrites: syntactic sweep over every function of the package
+	if len(u.onlyWrites) > 0 {
+		writers := map[string]map[string]bool{}
+		for _, fn := range u.funcList {
+			for _, b := range fn.Blocks {
+				for _, in := range b.Instrs {
+					if st, ok := in.(*ssa.Store); ok {
+						if fa, ok := st.Addr.(*ssa.FieldAddr); ok {
+							stT, s := derefStruct(fa.X.Type())
+							key := u.fieldKey(stT, s.Field(fa.Field))
+							if writers[key] == nil {
+								writers[key] = map[string]bool{}
+							}
+							n := u.displayName(fn)
+							if fn.Origin() != nil {
+								n = genericName(n)
+							}
+							writers[key][n] = true
+						}
+					}
+				}
+			}
+		}
+		for _, key := range sortedKeys(u.onlyWrites) {
+			allowed := map[string]bool{}
+			for _, a := range u.onlyWrites[key] {
+				allowed[strings.TrimSpace(a)] = true
+			}
+			for w := range writers[key] {
+				if !allowed[w] {
+					u.loadErrs = append(u.loadErrs, fmt.Sprintf("field %s is written by %s, which is not in its onlywrites list", key, w))
+				}
+			}
+		}
+		sort.Strings(u.loadErrs)
+	}
+	for _, fn := range u.funcList {
+		if len(fn.Blocks) == 0 || fn.Synthetic != "" {
+			continue
+		}
+		for _, b := range fn.Blocks {
+			for _, in := range b.Instrs {
+				st, ok := in.(*ssa.Store)
+				if !ok {
+					continue
+				}
+				fa, ok := st.Addr.(*ssa.FieldAddr)
+				if !ok {
+					continue
+				}
+				stT, s := derefStruct(fa.X.Type())
+				key := u.fieldKey(stT, s.Field(fa.Field))
+				if tn, ok := u.objinvFields[key]; ok {
+					c := u.contractFor(fn)
+					if c == nil || c.Trusted {
+						u.loadErrs = append(u.loadErrs, fmt.Sprintf("field %s of object invariant %s is written by %s, which is not under contract", key, tn, u.displayName(fn)))
+					}
+				}
+			}
+		}
+	}
+}
+
+// objInvFor returns the object invariant for pointer type t (or nil).
+func (u *Universe) objInvFor(t types.Type) *ObjInv {
+	if t == nil || len(u.objinvs) == 0 {
+		return nil
+	}
+	pt, ok := t.Underlying().(*types.Pointer)
+	if !ok {
+		return nil
+	}
+	n, ok := pt.Elem().(*types.Named)
+	if !ok || n.Obj().Pkg() != u.tpkg {
+		return nil
+	}
+	return u.objinvs[n.Obj().Name()]
 }
